@@ -2,18 +2,24 @@
 // state, the helpers rol/ff/gg/hh and the body of processChunk — translated statement by statement into
 // Lean `UInt32` definitions (lean/Manticore/Gen/Md4Kernel.lean).
 //
-// The translator knows exactly the shapes listed below and aborts with file:line on anything else:
+// Constants, New() and the helpers are recognised by shape (listed below; anything else aborts with
+// file:line).  The body of processChunk is not matched against one spelling: it is RUN by a partial
+// evaluator (md4_peval.go — constant folding, loop unrolling, package-level and local tables, registers in
+// named locals or in an array, function values resolved to the helpers, the spellings of the word load and of
+// the feed-forward), and the straight-line step sequence it performs is written out in one canonical form.
+// The 48 unrolled assignments, three loops over tables and one double loop over a table of rounds therefore
+// regenerate the same text; a changed shift, word index, bound, argument order, register rotation or helper
+// body regenerates a different one (or is refused).
 //
 //	const name = <int literal>                                  (chunkSize, init0..init3)
 //	func New: md4.state[k] = <const name>   for k = 0..3        (nothing else may touch the state)
 //	func f(p1, …, pn uint32) uint32 { return <expr> }           expr over + - ^ & | << >>, ( ), params,
 //	                                                            int literals, calls of such helpers
-//	func (md4 *MD4) processChunk(chunk []byte):
-//	    var x [16]uint32
-//	    for i := 0; i < 16; i++ { x[i] = binary.LittleEndian.Uint32(chunk[i*4:]) }
-//	    a, b, c, d := md4.state[0], md4.state[1], md4.state[2], md4.state[3]
-//	    v = helper(v…, x[k], <shift literal>)                   any number of these
-//	    md4.state[k] += v                                       k = 0..3, each once, in order
+//	func (md4 *MD4) processChunk(chunk []byte):                 whatever md4_peval.go can reduce to
+//	    v = helper(<register | md4.state[k] on entry | message word | constant>…)   any number of these steps,
+//	    md4.state[k] = md4.state[j] on entry + v  (or v)        as final values of the four state words
+//	  emitted over the canonical register names a, b, c, d (= md4.state[0..3] on entry) whatever the source
+//	  calls them.
 //
 // Go and Lean agree on `x << s` / `x >> s` for uint32 only when 0 <= s < 32 (Go gives 0 for s >= 32,
 // Lean reduces s mod 32), so every shift amount reaching a shift operator is checked to be a literal
@@ -411,7 +417,7 @@ func md4Kernel(repo string) (string, any, error) {
 			return "", nil, m.errf(m.helpers[h], "uint32 helper %s is not used by processChunk: code shape changed", h)
 		}
 	}
-	b.WriteString(fmt.Sprintf("\n/-- `processChunk`, %d steps in source order; `x k` is the k-th little-endian 32-bit word of the chunk\n    (the loop `x[i] = binary.LittleEndian.Uint32(chunk[i*4:])`, i = 0..15, was recognised as such). -/\n", len(steps)))
+	b.WriteString(fmt.Sprintf("\n/-- `processChunk`, %d steps in the order in which the source performs them; `x k` is the k-th little-endian\n    32-bit word of the chunk (every word load of the source was evaluated to such a word or refused; a cell of the\n    word array that is never loaded appears as the constant 0 it is in Go). -/\n", len(steps)))
 	b.WriteString("def processChunk (st : UInt32 × UInt32 × UInt32 × UInt32) (x : Nat → UInt32) : UInt32 × UInt32 × UInt32 × UInt32 :=\n")
 	for i, v := range varNames {
 		b.WriteString(fmt.Sprintf("  let %s := st.%s\n", v, []string{"1", "2.1", "2.2.1", "2.2.2"}[i]))
